@@ -10,7 +10,7 @@ TECHNIQUE = "deterministic simulation; every status change recorded at BaseOrder
 BUDGET = {"quick": {"runs": 10000, "wall": 45}, "thorough": {"runs": 500000, "wall": 900}}
 RULE = "one evaluation = one seeded backtest: requests (incl. illegal ones) issued at random instants relative to fills, suspension lapses, removals, in-play turns and closure with latencies drawn so that responses land before/after the market event; non-trivial = an illegal request was attempted or a response was applied after the order had completed for another reason; distinct = distinct scenario digests"
 ASSUMPTIONS = [
-    "75% World A backtests (simulated exchange), 25% World B live sessions against the exchange double (legitimate replies and injected API faults, no restarts)",
+    "70% World A backtests (simulated exchange), 22% World B live Betfair sessions against the exchange double (legitimate replies and injected API faults, no restarts), 8% World B sessions with BetdaqOrder through a method-level Betdaq API stub (a successful Betdaq update stays UPDATING until the next poll, as the code documents)",
     "observation points: every status change, every request, every package and its execution, end of every update",
 ]
 from . import C11 as _c11
@@ -20,6 +20,11 @@ MONITORS = [LedgerMonitor, LifecycleMonitor]
 
 
 def generate(rng, i, tier):
+    if rng.random() < 0.08:
+        # World B with a Betdaq client (BetdaqOrder / BetdaqOrderPackage / BetdaqExecution, API stubbed at method level)
+        from .. import livegen
+
+        return livegen.gen_live_betdaq(rng)
     if rng.random() < 0.25:
         from .. import livegen
 
